@@ -21,6 +21,9 @@ def wordsFrom (s : List Char) (c : Captures) : List Tok → List (List Char)
   | .word i _ :: T => (match c[i]? with
       | some (some (a, b)) => slice s a b
       | _ => []) :: wordsFrom s c T
+  | .num i _ :: T => (match c[i]? with
+      | some (some (a, b)) => slice s a b
+      | _ => []) :: wordsFrom s c T
   | _ :: T => wordsFrom s c T
 
 def restFrom (s : List Char) (c : Captures) : Fin → List Char
